@@ -397,11 +397,39 @@ def r4_acceptance(ctx):
         if ok and v[0] == 'agg':
             entry = v[4][0][1]
             f = dict(entry[4]) if entry[0] == 'agg' else {}
-            shift_ok = f.get('shift') == ('bin', 'Sub', C(64), ('p', 3))
+            # shift = 64 - number of relevant blocker squares: the bit count either computed here from the mask or handed in
+            sh = f.get('shift')
+            shift_ok = False
+            bits_param = None
+            if sh is not None and sh[0] == 'bin' and sh[1] == 'Sub' and sh[2] == C(64):
+                x = strip_cast(sh[3])
+                if x[0] == 'p':
+                    bits_param = x[1]
+                    shift_ok = True
+                elif x[0] == 'call' and x[1].endswith('count_ones') and strip_cast(x[2][0]) in (f.get('mask'), ('fld', f.get('mask'), '0')):
+                    shift_ok = True
             mask_ok = f.get('mask', ('x',))[0] == 'call' and f['mask'][1].endswith('relevant_blockers')
             call = t[0][0][1]
             same_entry = True
             ok = ok and shift_ok and mask_ok
+    if ok and bits_param is not None:
+        # the caller must hand in popcount(relevant_blockers(square)) for the same piece and square
+        cname = PM + 'find_and_write_magics'
+        couts = Engine(facts, opaque={PM + 'find_magic', PM + 'SlidingPiece::relevant_blockers'}, max_paths=3000).run(cname)
+        args_ok, n_calls = True, 0
+        for o in couts:
+            for e in o.events:
+                if e[0] == 'call' and e[1] == name:
+                    n_calls += 1
+                    a = e[2]
+                    b = strip_cast(a[bits_param - 1])
+                    good = b[0] == 'call' and b[1].endswith('count_ones')
+                    if good:
+                        m_ = strip_cast(b[2][0])
+                        m_ = m_[1] if m_[0] == 'fld' and m_[2] == '0' else m_
+                        good = m_[0] == 'call' and m_[1].endswith('relevant_blockers') and m_[2][0] == a[0] and m_[2][1] == a[1]
+                    args_ok = args_ok and good
+        ok = ok and args_ok and n_calls >= 1
     ctx.ob(rule, name, 'a magic is returned only when try_make_table succeeded; shift = 64 - bits; mask = relevant blockers', ok,
            found=[[show_cond(c) for c in o.conds][:3] for o in rets][:2], expected='if let Ok(table) = try_make_table(..) { return }')
     name = PM + 'try_make_table'
